@@ -4,7 +4,7 @@
    struct tags (gen/Schema_gen.v) and is what the tie executes; C9 / C9I instantiate it with scalars, string
    lists and custom types given by their own codec (version: C03, dependency and architecture: C05). *)
 From Coq Require Import List Ascii String Bool Arith NArith ZArith Lia.
-Require Import GS V3 V4 L10 L11 R2 C9 C9G C9I C9T CX.
+Require Import GS V3 V4 L10 L11 R2 C9 C9G C9I C9T CX C9C.
 Import ListNotations.
 
 (* every value kind round-trips: string, int, uint, bool *)
@@ -28,6 +28,16 @@ Theorem C09_record_roundtrip : forall (custom : Type) cenc cdec czero (cwf : nat
     (C9G.values (C9G.convert xkind (xvalue custom) (xmarshal custom cenc) sch r {| C9G.order := []; C9G.values := [] |})) = Some r.
 Proof. exact C09_roundtrip_all. Qed.
 Print Assumptions C09_record_roundtrip.
+
+(* ... instantiated with the library's own custom types: version.Version (C03 codec), dependency.Dependency and
+   dependency.Arch (C05 codecs); cwf: a Policy version, a dependency as the parser produces it, an architecture
+   that is the parse of some name and not the triple of empty strings *)
+Theorem C09_record_roundtrip_library_types : forall (sch : xschema) r,
+  xtyped cust cenc cdec cwf sch r -> C9G.keys_distinct xkind sch ->
+  C9G.decode xkind (xvalue cust) (xzero cust czero) (xdecode cust cdec) sch
+    (C9G.values (C9G.convert xkind (xvalue cust) (xmarshal cust cenc) sch r {| C9G.order := []; C9G.values := [] |})) = Some r.
+Proof. exact C09_roundtrip_with_library_types. Qed.
+Print Assumptions C09_record_roundtrip_library_types.
 
 (* through the text: Marshal -> WriteTo -> reader -> decode gives the record back (scalar kinds; values that
    are single trimmed lines, which integers, unsigned integers and booleans always are) *)
